@@ -142,6 +142,8 @@ structure Full where
   w : World
   sys : Nat → KG.Model.MaxInflight.Sys
   bind : Nat → Option Nat
+  /-- the schema names the request loops use: thread `t` asks for `names[t % |names|]` -/
+  names : List Str := []
 
 def fullCluster : Str := [97]
 def fullSchema : Str := [115]
@@ -157,17 +159,20 @@ def decodeFEv (j : Json) : Except String FEv :=
   | some v => do pure (.sync (← (← v.getArr?).toList.mapM decodeSchema))
   | none => do pure (.step (← J.getNat j "t"))
 
-/-- state of the limiter currently handed out for the schema: `(count, max)` of its counter, or `(-1, 0)` -/
-def curState (f : Full) : Int × Nat :=
-  match getOrDefault f.w fullCluster fullSchema with
+def Full.nameOf (f : Full) (t : Nat) : Str :=
+  if f.names.isEmpty then fullSchema else f.names.getD (t % f.names.length) fullSchema
+
+/-- state of the limiter currently handed out for schema `n`: `(count, max)` of its counter, or `(-1, 0)` -/
+def curState (f : Full) (n : Str) : Int × Nat :=
+  match getOrDefault f.w fullCluster n with
   | some (some id) =>
     match f.w.heap id with
     | some (.counter _) => ((f.sys id).count, (f.sys id).max)
     | _ => (-1, 0)
   | _ => (-1, 0)
 
-def fullOut (f : Full) (at_ out : String) : Json :=
-  let st := curState f
+def fullOut (f : Full) (n : Str) (at_ out : String) : Json :=
+  let st := curState f n
   J.obj [("at", at_), ("out", out), ("count", J.int st.1), ("max", J.nat st.2)]
 
 /-- after a `Sync`: every max-in-flight limiter object has the limit the sequential model gives it (a new
@@ -183,26 +188,27 @@ def fullStep (f : Full) : FEv → Except String (Full × Json)
     | .error e => .error e
     | .ok w' =>
       let f' : Full := { f with w := w', sys := syncSys w' f.sys }
-      .ok (f', fullOut f' "" "none")
+      .ok (f', fullOut f' (f'.nameOf 0) "" "none")
   | .step t =>
+    let n := f.nameOf t
     match f.bind t with
     | none =>
-      match getOrDefault f.w fullCluster fullSchema with
-      | none => .ok (f, fullOut f "Lookup" "admitted+released")
+      match getOrDefault f.w fullCluster n with
+      | none => .ok (f, fullOut f n "Lookup" "admitted+released")
       | some none => .error panicNil
       | some (some id) =>
         match f.w.heap id with
         | none => .error "model: dangling limiter"
         | some (.counter _) =>
           let f' := { f with bind := fun u => if u = t then some id else f.bind u }
-          .ok (f', fullOut f' (pcName ((f.sys id).pc t)) "none")
-        | some _ => .ok (f, fullOut f "Lookup" "admitted+released")
+          .ok (f', fullOut f' n (pcName ((f.sys id).pc t)) "none")
+        | some _ => .ok (f, fullOut f n "Lookup" "admitted+released")
     | some id =>
       let r := KG.Model.MaxInflight.stepThread (f.sys id) t
       let done := r.2 == .rejected || r.2 == .released
       let f' : Full := { f with sys := fun i => if i = id then r.1 else f.sys i,
                                 bind := fun u => if u = t ∧ done then none else f.bind u }
-      .ok (f', fullOut f' (if done then "Lookup" else pcName (r.1.pc t)) (outName r.2))
+      .ok (f', fullOut f' n (if done then "Lookup" else pcName (r.1.pc t)) (outName r.2))
 
 def runFull : Full → List FEv → List Json
   | _, [] => []
@@ -213,7 +219,8 @@ def runFull : Full → List FEv → List Json
 
 def doFull (a : Json) : Except String Json := do
   let evs ← (← J.getArr a "events").toList.mapM decodeFEv
-  pure <| J.obj [("steps", Json.arr (runFull Full.init evs).toArray)]
+  let names := (J.getHexList a "names").toOption.getD []
+  pure <| J.obj [("steps", Json.arr (runFull { Full.init with names := names } evs).toArray)]
 
 def decodeChoice : Json → Except String Choice
   | .str "go" => pure .go
